@@ -56,7 +56,7 @@ def _disabled_dep_witness():
 
 from run import witnesses2 as W2  # noqa: E402
 
-Run.corpus = [_disabled_dep_witness()] + W2.CONTROLS2
+Run.corpus = [_disabled_dep_witness()] + W2.ALL_DISABLED_SUITES + W2.CONTROLS2
 
 
 # ---- the declaration path: stacked depends_on decorators, predicates, validation of the dependency graph -------------------
@@ -105,6 +105,16 @@ PROPS_FILES = PROPS_FILES + ["LccModel/Props/C04Decl.lean"]
 NAMESPACES = dict(NAMESPACES, **{"LccModel/Props/C04Decl.lean": "LccModel.C04Decl"})
 TRUSTED_BASE = TRUSTED_BASE + DECL_TRUSTED + DECLRUN_TRUSTED
 RULE = RULE + "; " + DEPS_RULE + "; " + DECLRUN_RULE
+
+
+LEAN_MODULES = LEAN_MODULES + ["LccModel.Props.C04Setup"]
+PROPS_FILES = PROPS_FILES + ["LccModel/Props/C04Setup.lean"]
+NAMESPACES = dict(NAMESPACES, **{"LccModel/Props/C04Setup.lean": "LccModel.C04Setup"})
+RULE = RULE + ("; run stream also: in 12 % of the projects one suite (nested in 3 of 4 cases where there is one) with a setup phase has ALL its "
+               "own tests disabled (each test, or the suite), 65 % of those under --force-disabled")
+EXPLANATION = EXPLANATION + (" Suites whose own tests are all disabled (Props/C04Setup): under --force-disabled every suite with a setup phase, "
+                             "at any depth, has its setup and teardown tasks and each of its tests waits for the setup task; the oracle "
+                             "reports a test body entered while the setup_suite hook of its suite never ran.")
 
 
 def streams(ctx):
